@@ -121,15 +121,15 @@ def harness(g, job, level, canary=False):
     real_once = it.execute_once
 
     def once():
-        sch.yield_point('execute_once:enter')
         tl.append(('exec_begin',))
+        sch.yield_point('execute_once:enter')
         st = real_once()
         if calls_in_cycle:
             calls_in_cycle[-1] += 1
         if st is not None:
             executed.append(st)
-        tl.append(('exec_end',))
         sch.yield_point('execute_once:exit')
+        tl.append(('exec_end',))
         return st
     it.execute_once = once
 
